@@ -9,7 +9,10 @@ def variants(tier):
     S = vlib.SMALL
     vs = [vlib.variant(name="small-nosse", sse2=0, **S),
           vlib.variant(name="mid-ts", l1=32768, l2=262144, l3=4194304, threadsafe=1),
-          vlib.variant(name="small-omp", openmp=1, **S)]
+          vlib.variant(name="small-omp", openmp=1, **S),
+          # an L3 size whose derived block size sqrt(4*L3)/2 = 724 is NOT a multiple of 64 (512 KiB; machines without
+          # an L3 get L3 := L2, so this is an ordinary value): cache-derived constants used as split points
+          vlib.variant(name="l3-512k", l1=32768, l2=262144, l3=524288)]
     if tier == "thorough":
         vs += [vlib.variant(name="host"), vlib.variant(name="host-nosse", sse2=0), vlib.variant(name="host-omp", openmp=1),
                vlib.variant(name="host-ts", threadsafe=1), vlib.variant(name="small", **S),
@@ -34,6 +37,14 @@ def run(res, tier, seed):
         runner = corr.Runner(v)
         env = {"OMP_NUM_THREADS": "4"} if v["openmp"] else None
         engine.run_ops(res, "C12", names, seed, n, 260 if tier == "quick" else 500, runner=runner, env=env, tag="/cfg=" + v["name"])
+        # the cache-derived block size of this configuration (mzd.h: MIN(sqrt(4*L3)/2, 2048)) is the regime threshold AND,
+        # in the recursive regimes, enters the split points of the triangular solves: systems just beyond it
+        bs = min(int((4 * int(v["l3"])) ** 0.5) // 2, 2048)
+        if bs <= 800:
+            Tt = ops.Tiers(res, "C12", v, unique=True)
+            Tt.tag = "/tri/cfg=" + v["name"]
+            tri = [nm for nm in ("trsm_upper_right", "trsm_lower_right", "trsm_upper_left", "trsm_lower_left") if nm in ops.CATALOG]
+            Tt.run(tri, seed + 7, 3 if tier == "quick" else 20, 260, tri_big=(bs + 1, bs + 300, 1.0))
         # the cache-derived PLE cut-off of this configuration: inputs just large enough to enter the block recursion
         # (Schur complement, L compression) with rank-deficient column halves - ordinary sizes on a small-cache machine;
         # two-tier comparison of tools/ops.py (verified checker on the output, exact (A',P,r,Q) at the build's cut-off)
